@@ -713,11 +713,11 @@ func (fc *fctx) recoverValue(st *State, t types.Type) *Value {
 // ---- ghost hooks ----
 
 func (fc *fctx) ghostHook(st *State, fr *frame, call *ast.CallExpr, name string, vars map[string]*Value) {
-	if fr != fc.root || call == nil || fc.contract == nil {
+	if call == nil || fr.contract == nil {
 		return
 	}
 	ord := fr.callOrd[call]
-	for _, cl := range fc.contract.Clauses {
+	for _, cl := range fr.contract.Clauses {
 		if cl.Kind != "ghost" {
 			continue
 		}
